@@ -137,6 +137,8 @@ def run(tier, replay):
         lines = None
         core = sum(1 for l in r.output.splitlines() if l.startswith('<<"CORE"'))
         c.add("core_domain_cases", core)
+        c.add("schema_evaluations_in_keyword_subset", sum(1 for l in r.output.splitlines() if l.startswith('<<"INDOM"')))
+        c.add("schema_evaluations_outside_subset_skipped", sum(1 for l in r.output.splitlines() if l.startswith('<<"OUTDOM"')))
         c.add("traces_validated_against_impl", summary["cases"])
         bads = V.tlc_prints(r.output, "BAD")
         if bads:
@@ -151,18 +153,28 @@ def run(tier, replay):
                 c.add("spec_drift_outside_core_not_judged")
                 continue
             e = json.loads(lines[b["l"] - 1])
+            if e.get("fn") == "schema":
+                kws = ",".join(sorted(x[0] for x in e["schema"].get("f", [])))
+                c.violation("%s:%s" % (b["what"], kws), "bsonkit.Schema(%s).Evaluate(%s) = %s but the JSON-schema semantics (Schema.tla, Valid) say %s" % (
+                    show(e["schema"]), show(e["value"]), e["res"], b["exp"]), {"case": e, "spec": b})
+                continue
             ops = ",".join(sorted(ops_of(e["q"], set()))) or "eq"
             key = "match:%s:%s" % (b["what"], ops)
+            if b["what"] == "ref-kf-deps":
+                key = "match:ref-kf-deps:jsonSchema"
             if b["what"] == "ref" and type_array_fanout(e["doc"], e["q"]):
                 key += ":type-array-fanout"
             what = "mongokit.Match(%s, %s) = %s but %s says %s" % (
                 show(e["doc"]), show(e["q"]), e["res"],
-                "the reference semantics (MatchRef, core domain)" if b["what"] == "ref" else "the specification (MatchImpl)", b["exp"])
+                "the reference semantics (MatchRef, core domain)" if b["what"].startswith("ref") else "the specification (MatchImpl)", b["exp"])
             c.violation(key, what, {"case": e, "spec": b})
         # distinct non-trivial: distinct (operator set, result) over cases
         for i, line in enumerate(open(os.path.join(d, "trace.ndjson"))):
             if i % 7 == 0:
                 e = json.loads(line)
+                if e.get("fn") == "schema":
+                    nontrivial.add(("schema:" + ",".join(sorted(x[0] for x in e["schema"].get("f", []))), e["res"]))
+                    continue
                 nontrivial.add((",".join(sorted(ops_of(e["q"], set()))), e["res"]))
                 if len(c.cov["samples"]) < 4 and i % 700 == 0:
                     c.sample({"doc": show(e["doc"]), "filter": show(e["q"]), "impl": e["res"]})
@@ -170,7 +182,7 @@ def run(tier, replay):
     mc = os.path.join(work, "mc")
     os.makedirs(mc)
     V.run([bins["c10"], "strings", mc])
-    V.stage_spec(mc, ["BSON.tla", "Path.tla", "Query.tla", "QueryRef.tla", "MCQuery.tla", "MCQuery.cfg"])
+    V.stage_spec(mc, ["BSON.tla", "Path.tla", "Schema.tla", "Query.tla", "QueryRef.tla", "MCQuery.tla", "MCQuery.cfg"])
     json.dump({"big": tier == "thorough"}, open(os.path.join(mc, "mcparams.json"), "w"))
     r = V.tlc(mc, "MCQuery.tla", cfg="MCQuery.cfg", timeout=2400)
     c.add_tlc(r)
